@@ -111,12 +111,32 @@ def main():
 
         rc0, out0 = run_demo()
         meta["demo_without_change"] = {"exit": rc0, "tail": out0[-600:]}
-        rc, out = sh(f"git apply {src}/patch.diff", cwd=wt)
-        if rc:
+        # the stored patch was written against the HEAD of its day; when /repo moved under it (a later `fix:` commit in the
+        # same function) a hand-adapted variant with the same intent is stored next to it as patch-adapted-<head>.diff
+        import glob as _glob
+        cands = [f"{src}/patch.diff"] + sorted(_glob.glob(f"{dst}/patch-adapted-*.diff"), key=os.path.getmtime, reverse=True)
+        used = None
+        for cand in cands:
+            rc, out = sh(f"git apply --check {cand}", cwd=wt)
+            if rc == 0:
+                used = cand
+                break
+        if used is None:
             meta["error"] = "patch does not apply to current HEAD: " + out[-400:]
             print(meta["error"])
+            try:
+                old = json.load(open(f"{dst}/meta.json"))
+                meta["checks_recorded_before_head_moved"] = old.get("checks") or old.get("checks_recorded_before_head_moved")
+            except Exception:
+                pass
             json.dump(meta, open(f"{dst}/meta.json", "w"), indent=1)
             return 2
+        if used != f"{src}/patch.diff":
+            meta["patch_used"] = os.path.basename(used)
+            src_patch = used
+        else:
+            src_patch = f"{src}/patch.diff"
+        sh(f"git apply {src_patch}", cwd=wt)
         rc1, out1 = run_demo()
         meta["demo_with_change"] = {"exit": rc1, "tail": out1[-600:]}
         # pytest demo exit code through `| tail` is lost: look at the text
@@ -127,9 +147,9 @@ def main():
         if demo and not demo.endswith("_test.py"):
             # exit code of a pipeline = tail's; re-run without tail for the code
             rcw = sh(f"{PY} {src}/{demo} >/dev/null 2>&1", cwd=wt, env=env, timeout=300)[0]
-            sh(f"git apply -R {src}/patch.diff", cwd=wt)
+            sh(f"git apply -R {src_patch}", cwd=wt)
             rco = sh(f"{PY} {src}/{demo} >/dev/null 2>&1", cwd=wt, env=env, timeout=300)[0]
-            sh(f"git apply {src}/patch.diff", cwd=wt)
+            sh(f"git apply {src_patch}", cwd=wt)
             meta["patch_applied_for_checks"] = sh("git diff --stat | tail -1", cwd=wt)[1].strip()
             meta["demo_with_change"]["exit"] = rcw
             meta["demo_without_change"]["exit"] = rco
